@@ -13,7 +13,7 @@ import random
 from pamqp import specification as spec
 from pamqp.heartbeat import Heartbeat as HbFrame
 
-from harness import core, vconn, vrt
+from harness import core, vconn, vrt, concdrv
 from harness.broker import parse_stream
 from harness.core import coq_Z, coq_list
 
@@ -32,8 +32,19 @@ EVK = {'r': 'ERead', 'w': 'EWrite', 'start': 'EStart', 'stop': 'EStop',
        'wait': 'EWait'}
 
 
-class Driver(object):
+def gen_hbclose(rnd):
+    """close() at the instant a heartbeat check fires (the wire was silent, so a heartbeat is due)."""
+    threads = [[(0, ('sync_timer',)), (0, ('conn_close',))]]
+    if rnd.random() < 0.3:
+        threads.append([(0, ('sync_timer',)), (0, ('conn_close',))])
+    return dict(nchan=rnd.choice([0, 1]), threads=threads, heartbeat=rnd.choice([2, 4, 6]),
+                slow_closeok=rnd.choice([0, 0.3]))
+
+
+class Driver(concdrv.ConcMixin):
     PID = 'C12'
+    CONC = [('hbclose', gen_hbclose, 'conc_hb_close_ok', 40, 600)]
+    LINE_P = [0.05, 0.15, 0.3]
     MODEL_TARGETS = ['Model/Heartbeat.vo']
     SPEC = dict(header='From AV Require Import Lib.Base Model.Heartbeat.\n'
                        'Local Open Scope Z_scope.',
@@ -132,12 +143,22 @@ class Driver(object):
         return []
 
     def legal(self, T, evs):
+        """start() only while the checker is not running: after stop(), or after it
+        has declared the peer dead (certain once 3 intervals passed without a read)."""
         running = T > 0
-        for k, _ in evs:
-            if k == 'start':
+        quiet = 0
+        I = 512 * T
+        for k, d in evs:
+            quiet += d
+            if running and I and quiet >= 3 * I:
+                running = False          # declared dead by now
+            if k == 'r':
+                quiet = 0 if running else quiet
+            elif k == 'start':
                 if running:
                     return False
                 running = T > 0
+                quiet = 0
             elif k == 'stop':
                 running = False
         return True
@@ -151,7 +172,7 @@ class Driver(object):
             I = 512 * T
             steps = [0, I // 2, I - 1, I, I + 1, 2 * I]
             kinds = ['r', 'w', 'wait', 'stop', 'start']
-            alpha = [(k, d) for k in kinds for d in steps]
+            alpha = [(k, d) for k in kinds for d in steps] + [('wait', 3 * I), ('start', 3 * I)]
             count = 0
             for n in range(1, depth + 1):
                 space = itertools.product(alpha, repeat=n)
@@ -180,6 +201,13 @@ class Driver(object):
                      'writes': [1, 8, 2, 0.3, 0.3],
                      'quiet': [0.5, 0.5, 8, 0.5, 0.5]}[mode]
                 k = rnd.choices(['r', 'w', 'wait', 'stop', 'start'], w)[0]
+                if T and rnd.random() < 0.04:
+                    # a long silence (the peer is declared dead), then the connection is
+                    # re-opened: start() without a stop() in between
+                    evs.append(('wait', 3 * I))
+                    evs.append(('start', rnd.choice(steps)))
+                    running = True
+                    continue
                 if k == 'start' and running:
                     k = 'wait'
                 if k == 'start':
@@ -188,16 +216,21 @@ class Driver(object):
                     running = False
                 evs.append((k, rnd.choice(steps)))
             out.append((T, tuple(evs)))
-        return [self.make_case(T, evs) for T, evs in out]
+        return [self.make_case(T, evs) for T, evs in out] + self.conc_cases(tier, seed)
 
     def replay_cases(self, doc):
         c = doc['case']
+        if c.get('conc'):
+            return self.conc_replay(c)
         return [self.make_case(c['T'], c['evs'])]
 
     def stats(self, cases):
         st = {'T': {}, 'len': {}, 'events': {}}
         for c in cases:
             m = c['meta']
+            if m.get('conc'):
+                st['concurrent_runs'] = st.get('concurrent_runs', 0) + 1
+                continue
             st['T'][m['T']] = st['T'].get(m['T'], 0) + 1
             b = min(len(m['evs']) // 5 * 5, 60)
             st['len'][b] = st['len'].get(b, 0) + 1
